@@ -74,6 +74,9 @@ type WorldSpec struct {
 	AllowUnmatched bool          `json:"allow_unmatched,omitempty"`
 	UseOverride    bool          `json:"use_override,omitempty"` // default_oidc_config + oidc_override
 	LogLevel       string        `json:"log_level,omitempty"`    // "", error, debug
+	// HandlerMode: requests are served by one long-lived oidcHandler per filter instead of through
+	// ExtAuthZFilter.Check (component level; single-filter worlds without trigger rules only).
+	HandlerMode bool `json:"handler_mode,omitempty"`
 	IdPs           []IdPSpec     `json:"idps"`
 }
 
